@@ -151,6 +151,18 @@ def check(run):
              any(K.mentions_field(x, "last_slices", "Repair") for x in a[1])]
         o.check(bool(g), "handle_response|add_shred_from_repair|last-marker", "shred.is_last == (slice == proven last slice) before storing", c.span, {"guards": G.atoms_show(atoms)[:14]})
 
+    # request issuance order (backs the two unreachable!() in the Shred arm)
+    for c in b.calls_to(REP + "::send_request"):
+        t = b.operand_term(c.args[1])
+        aggs = [x for x in mir.walk(t) if isinstance(x, tuple) and x and x[0] == "agg" and x[1] == R + "RepairRequestType"]
+        for a_ in aggs:
+            if a_[2] == "Shred":
+                ok = any(b.dominates(x.bb, c.bb) for x in sr)
+                o.check(ok, "handle_response|send_request(Shred)|after-root", "Shred requests are issued only after the slice root was recorded", c.span)
+            if a_[2] == "SliceRoot":
+                ok = any(b.dominates(x.bb, c.bb) for x in ls)
+                o.check(ok, "handle_response|send_request(SliceRoot)|after-last", "SliceRoot requests are issued only after the last-slice index was recorded", c.span)
+
     # ------------------------------------------------------------------ O14.4
     o = run.ob("O14.4", "responder: request kind -> response kind with data read from the blockstore for the same ids; cannot serve => Nack; unknown sender dropped before indexing",
                "a responder answering with data of another block/slice makes honest requesters reject honest answers", floor=8)
